@@ -613,9 +613,13 @@ func genInner(r *hx.Rng, kind string, style int, bare bool) (plantExpr, string) 
 			return mk("github.event[zzq]", "github.event[zzq]", 13), v
 		}
 	case "type":
-		vs := []string{"deref-string", "argcount", "argtype"}
+		vs := []string{"deref-string", "argcount", "argtype", "restarg2", "restarg3"}
 		v := vs[r.Intn(len(vs))]
 		switch v {
+		case "restarg2": // variadic parameter: the offending argument is the 2nd / 3rd one
+			return mk("hashFiles(1, github)", "hashFiles(1, github)", 13), v
+		case "restarg3":
+			return mk("hashFiles(1, 2,  github)", "hashFiles(1, 2,  github)", 17), v
 		case "deref-string":
 			return mk("github.event_name.zzq", "github.event_name.zzq", 0), v
 		case "argcount":
@@ -822,6 +826,12 @@ func genGlobSpec(r *hx.Rng, id int) Spec {
 	s.Text = pre + c + post
 	s.Marker, s.Delta = pre+c+post, len(pre)
 	s.Variant = "ref-char-" + c
+	if s.Style != 0 && r.Chance(1, 3) {
+		// negated pattern ('!' cannot start a plain scalar): the offending character is one further right
+		s.Text = "!" + s.Text
+		s.Marker, s.Delta = s.Text, len(pre)+1
+		s.Variant = "negated-ref-char-" + c
+	}
 	return s
 }
 
